@@ -560,8 +560,12 @@ fn transform(c: &mut Choices<'_>, case: &WorldCase, rel: &str) -> Option<Transfo
             let path = paths[c.below(paths.len())].clone();
             let node = anode_at(&case.ann.root, q, &path);
             let props = schema.properties(&node.ty);
+            let string_props: Vec<&crate::schema_ast::FieldDef> = props.iter().copied().filter(|p| !p.ty.is_list() && p.ty.base == "String").collect();
             let (pname, pt) = if props.is_empty() || c.chance(30) {
                 ("__typename".to_string(), crate::values::Ty::named("String", false))
+            } else if !string_props.is_empty() && c.chance(90) {
+                let p = string_props[c.below(string_props.len())];
+                (p.name.clone(), p.ty.clone())
             } else {
                 let p = props[c.below(props.len())];
                 (p.name.clone(), p.ty.clone())
@@ -582,10 +586,14 @@ fn transform(c: &mut Choices<'_>, case: &WorldCase, rel: &str) -> Option<Transfo
             if !pt.is_list() && pt.base == "String" {
                 ops.extend([Op::Regex, Op::NotRegex]);
             }
-            let op = ops[c.below(ops.len())];
+            let mut op = ops[c.below(ops.len())];
+            // regex / not_regex on string properties are favoured: tagged patterns are compiled at run time, per value
+            if !pt.is_list() && pt.base == "String" && c.chance(90) {
+                op = if c.chance(128) { Op::Regex } else { Op::NotRegex };
+            }
             let mut args = case.args.clone();
             // a tag of the same component that is already defined at this vertex can serve as the operand
-            let tag_operand: Option<String> = if !op.is_unary() && c.chance(110) {
+            let tag_operand: Option<String> = if !op.is_unary() && c.chance(if matches!(op, Op::Regex | Op::NotRegex) { 200 } else { 110 }) {
                 let qcfg = crate::query_ast::QueryGenConfig::default();
                 let cands: Vec<String> = case
                     .ann
